@@ -48,6 +48,9 @@ func c18Avoids(c *lib.Ctx) c18Avoid {
 		if strings.Contains(f.Signature, "value=float-long") {
 			a.longFloat = true
 		}
+		if strings.Contains(f.Signature, "steps=wild-desc") {
+			a.wildDesc = true
+		}
 		if strings.Contains(f.Signature, "steps=desc-last") {
 			a.trailingDesc = true
 		}
@@ -411,6 +414,9 @@ func runC18(c *lib.Ctx) {
 	}
 	if r.g.avoid.sharedValue {
 		avoided = append(avoided, "container values set through a multi-match path")
+	}
+	if r.g.avoid.wildDesc {
+		avoided = append(avoided, "a wildcard immediately followed by a descent")
 	}
 	if r.g.avoid.trailingDesc {
 		avoided = append(avoided, "query paths ending in a descent")
